@@ -4,6 +4,7 @@ import (
 	"fmt"
 	"strings"
 	"sync"
+	"time"
 
 	"github.com/orda-io/orda/client/pkg/model"
 	"vh/bed"
@@ -432,7 +433,13 @@ func runC08(c *core.Case) *core.Result {
 		}
 		if len(d0.W.CreatePushPullPack().Operations) == 0 {
 			if dd2 := w.b.Datatype(w.colNum, "k"); dd2 != nil {
-				if sig, msg := userDocCurrent(w, c08Variants[variant].typ, "colA", "k", dd2); sig != "" {
+				sig, msg := userDocCurrent(w, c08Variants[variant].typ, "colA", "k", dd2)
+				for t := 0; t < 40 && sig != ""; t++ { // a document that is due is awaited for a bounded time (2 s)
+					time.Sleep(50 * time.Millisecond)
+					w.idle()
+					sig, msg = userDocCurrent(w, c08Variants[variant].typ, "colA", "k", dd2)
+				}
+				if sig != "" {
 					return c.Violation(where+"epilogue:"+sig, "after the recovery and one more accepted push: %s", msg)
 				}
 				c.Count("user_document_current_after_recovery", 1)
